@@ -338,7 +338,7 @@ PROPS = {
             "Astral.C11Float.phase_table", "Astral.C11Advance.elongation_eq",
             "Astral.C11Advance.Eraw_step", "Astral.C11Advance.phase_daily_advance",
         ],
-        "groups": [G("corr_loc", "location", 800, 15000), G("corr_moon", "moon_phase", 3000, 20000, bulk_quick=["phase_all_dates_bulk"],
+        "groups": [G("corr_norm", "norm", 1200, 30000), G("corr_loc", "location", 800, 15000), G("corr_moon", "moon_phase", 3000, 20000, bulk_quick=["phase_all_dates_bulk"],
                      bulk_thorough=["phase_all_dates_bulk"]),
                    G("corr_julian", "julian", 1200, 20000)],
         "unproved": ["agreement with an independent lunar/solar elongation to 0.25"],
@@ -357,7 +357,7 @@ PROPS = {
             "Astral.C12.moon_elevation_range", "Astral.C12.moon_zenith_def",
             "Astral.C12.moon_azimuth_range", "Astral.C12.wrap_identity", "Astral.C12.moon_zenith_range",
         ],
-        "groups": [G("corr_loc", "location", 800, 15000), G("corr_moon", "moon_angles", 4000, 100000), G("corr_moon", "moon_position", 3000, 60000)],
+        "groups": [G("corr_norm", "norm", 1400, 30000), G("corr_loc", "location", 800, 15000), G("corr_moon", "moon_angles", 4000, 100000), G("corr_moon", "moon_position", 3000, 60000)],
         "unproved": ["agreement with an independent lunar ephemeris to 0.05°"],
         "assumes": ["IEEE: the modulo can round to exactly 360.0 — handled by the code's final wrap"],
     },
